@@ -291,9 +291,14 @@ func (fr *fwRun) pickName(localhost bool) enc.Name {
 	}
 	if localhost && fr.r.Intn(3) == 0 {
 		n = append(enc.Name{enc.NewStringComponent(8, "localhost")}, n...)
+	} else if fr.r.Intn(14) == 0 {
+		// near misses of the scope prefix are ordinary names
+		n = append(enc.Name{enc.NewStringComponent(8, fwNearLocalhost[fr.r.Intn(len(fwNearLocalhost))])}, n...)
 	}
 	return n
 }
+
+var fwNearLocalhost = []string{"localhostel", "localhos", "localhost-gw", "Localhost"}
 
 func (fr *fwRun) pickFace() uint64 {
 	ids := make([]int, 0, len(fr.m.faces))
@@ -323,6 +328,8 @@ func (fr *fwRun) run(p fwProfile) {
 		}
 		if r.Intn(4) == 0 {
 			n = enc.Name{} // default route
+		} else if r.Intn(8) == 0 {
+			n = enc.Name{enc.NewStringComponent(8, fwNearLocalhost[r.Intn(len(fwNearLocalhost))])}
 		}
 		for k := 1 + r.Intn(3); k > 0; k-- {
 			fr.doStep(&fwStep{Kind: "fib", FibOp: "insert", Name: n.String(), name: n, Face: fr.pickFace(), Cost: uint64([]int{0, 1, 5, 10}[r.Intn(4)])})
